@@ -110,6 +110,11 @@ pub trait Prop {
 	fn shrink_iters(&self) -> u32 {
 		200
 	}
+	/// Properties that enumerate a grid deterministically return a strategy that depends on the case index
+	/// (C20: cell = index mod number of cells). Default: None = use `strategy(tier)` for every case.
+	fn strategy_at(&self, _tier: Tier, _index: u64) -> Option<BoxedStrategy<Self::Case>> {
+		None
+	}
 }
 
 // ---------------------------------------------------------------------------------------------
@@ -374,12 +379,17 @@ pub fn run_part<P: Prop>(p: &mut P, args: &Args, rep: &mut Report) {
 			..Config::default()
 		};
 		let mut runner = TestRunner::new_with_rng(cfg, rng);
+		let strat_i = pcell.borrow().strategy_at(args.tier, i);
+		let strat = match &strat_i {
+			Some(s) => s,
+			None => &strat,
+		};
 		// state shared with closure
 		let first_fail: RefCell<Option<Fail>> = RefCell::new(None);
 		let first_outcome: RefCell<Option<(Outcome, Value, u64)>> = RefCell::new(None);
 		let known_hits: RefCell<Vec<String>> = RefCell::new(vec![]);
 		let repeat_hits: RefCell<Vec<String>> = RefCell::new(vec![]);
-		let res = runner.run(&strat, |case| {
+		let res = runner.run(strat, |case| {
 			let shrinking = first_fail.borrow().is_some();
 			let out = match guard(|| pcell.borrow_mut().run(&case)) {
 				Ok(o) => o,
